@@ -217,6 +217,7 @@ static size_t ms_read(void* ptr, size_t size, size_t count, void* ud) {
 static size_t ms_write(const void* ptr, size_t size, size_t count, void* ud) {
   MemStream* m = (MemStream*) ud;
   if (m->fail_write_after_items >= 0 && m->writes >= m->fail_write_after_items) return 0;
+  if (m->write_calls++ == m->fail_write_once_at) return 0;
   m->writes++;
   m->data.append((const char*) ptr, size * count);
   return count;
